@@ -4,7 +4,7 @@
 set -e
 cd "$(dirname "$0")"
 export CARGO_NET_OFFLINE=true
-B=/verif/.build/tinydep
+B="$(pwd)/.build/tinydep"
 mkdir -p "$B"
 ( cd tinydep && cargo +1.98.1-x86_64-unknown-linux-gnu build --offline --locked --target-dir "$B" )
 ls "$B"/debug/deps/libtinystr-*.rlib
